@@ -1,20 +1,22 @@
 ---------------------------- MODULE PkgUpdates_Trace ----------------------------
 (* Judges recorded calls of the real read_updates (drivers/c42_pkgupdates.py).
-   {tid, i, names:[..], files:[{y, q, lines:[{k,a,b,s1,s2}]}], raised,
-    got:[{n, cmds:[{k,a,b,s1,s2}]}]}
-   files: what was written to profiles/updates (any order); got: the mapping returned,
-   projected to package names and slots.                                              *)
+   {tid, i, eapi8, names:[..], files:[{y, q, lines:[{k,a,b,s1,s2}]}], raised,
+    gots:[ [{n, cmds:[{k,a,b,s1,s2}]}], ... ]}
+   files: what was written to profiles/updates (any order); gots: the mappings returned by
+   repeated reads of the same directory under different directory-listing orders, projected
+   to package names and slots.
+   eapi8 = FALSE: quarter-named files; every observation is judged against the chronological
+   reference.  eapi8 = TRUE: free-form names (y, q unused): the observations must agree with
+   each other (Listing_order_leaks) and with the reference under SOME order of the files
+   (No_file_order_explains).                                                             *)
 EXTENDS PkgUpdates, TraceLib
 VARIABLE l
 Norm(c) == [k |-> c.k, a |-> c.a, b |-> c.b, s1 |-> c.s1, s2 |-> c.s2]
 Count(seq, x) == Cardinality({k \in DOMAIN seq : seq[k] = x})
-Judge(e) ==
-    IF e.raised THEN {"Raised"}
-    ELSE
-    LET names == AsSet(e.names)
-        lines == Lines(e.files)
-        gotn  == {e.got[k].n : k \in DOMAIN e.got}
-        Got(n) == LET k == CHOOSE k \in DOMAIN e.got : e.got[k].n = n IN [j \in DOMAIN e.got[k].cmds |-> Norm(e.got[k].cmds[j])]
+\* one observation `got` against the line sequence `lines`
+JudgeGot(names, lines, got) ==
+    LET gotn  == {got[k].n : k \in DOMAIN got}
+        Got(n) == LET k == CHOOSE k \in DOMAIN got : got[k].n = n IN [j \in DOMAIN got[k].cmds |-> Norm(got[k].cmds[j])]
         Want(n) == [j \in DOMAIN CommandsFor(lines, n) |-> Norm(CommandsFor(lines, n)[j])]
         rep   == Reported(lines, names)
         both  == rep \cap gotn
@@ -27,6 +29,12 @@ Judge(e) ==
              THEN {"Chain_extra"} ELSE {})
        \cup (IF \E n \in wrong : \A x \in AsSet(Got(n)) \cup AsSet(Want(n)) : Count(Got(n), x) = Count(Want(n), x)
              THEN {"Chain_order"} ELSE {})
+Judge(e) ==
+    IF e.raised THEN {"Raised"}
+    ELSE IF ~e.eapi8 THEN UNION {JudgeGot(AsSet(e.names), Lines(e.files), e.gots[g]) : g \in DOMAIN e.gots}
+    ELSE (IF \E g \in DOMAIN e.gots : e.gots[g] # e.gots[1] THEN {"Listing_order_leaks"} ELSE {})
+         \cup (IF \E p \in FileOrders(Len(e.files)) : JudgeGot(AsSet(e.names), LinesUnder(e.files, p), e.gots[1]) = {}
+               THEN {} ELSE {"No_file_order_explains"})
 TraceInit == l = 0
 TraceNext == /\ l < Len(Tr)
              /\ l' = l + 1
